@@ -14,6 +14,7 @@
      pivots/det   Gaussian elimination without pivoting (Schur-complement steps); None on a zero pivot
      ratio_det    det G_xz det G_yz / (det G_z det G_xyz)                      (determinant form)
      ratio_corr   the same with correlation determinants det G / prod diag and the code's shortcuts
+     ratio_seq    prod_j |res(y_j | 1,Z,y_<j)|^2 / |res(y_j | 1,Z,y_<j,X)|^2  (sequential regressions)
      ratio_res    det S(X|Z) det S(Y|Z) / det S(XY|Z),  S(A|Z) = scatter matrix of the least-squares residuals of
                   the columns A on (1, Z), residual VECTORS computed by Gram-Schmidt projections in Q^N
                   (the form the PROPERTY speaks about)
@@ -116,6 +117,21 @@ Definition ratio_res (D : list (list Q)) (ix iy iz : list nat) : option Q :=
   let S := gmat (residuals D iz (ix ++ iy)) in
   ratio_of (det_piv (sub S 0 (length ix))) (det_piv (sub S (length ix) (length iy))) (Some 1) (det_piv S).
 
+(* the same quantity factor by factor (sequential regressions): for each column y_j of Y
+     ( |res(y_j | 1,Z,y_<j)|^2 , |res(y_j | 1,Z,y_<j,X)|^2 ),   ratio_seq = prod of the quotients.
+   Each extra regressor can only shrink a residual norm, which makes ratio_seq >= 1 a theorem in every dimension. *)
+Fixpoint res_factors (base xs ys : list (list Q)) : list (Q * Q) :=
+  match ys with
+  | [] => []
+  | y :: r => let ry := resid base y in
+              let e := resid (gs_acc base xs) y in
+              (dot ry ry, dot e e) :: res_factors (base ++ [ry]) xs r
+  end.
+Definition ratio_seq (D : list (list Q)) (ix iy iz : list nat) : option Q :=
+  let fs := res_factors (zbasis D iz) (map (col D) ix) (map (col D) iy) in
+  if existsb (fun nd => Qeq_bool (snd nd) 0) fs then None
+  else Some (Qred (qprod (map fst fs) / qprod (map snd fs))).
+
 (* ---- transformations the property speaks about (used in theorem statements only) ------------------- *)
 Fixpoint upd (c : nat) (f : Q -> Q) (r : list Q) : list Q :=
   match r, c with
@@ -140,12 +156,12 @@ Definition dy (e m : Z) : Q :=
 Definition sample (exps : list Z) (rows : list (list Z)) : list (list Q) := map (map2 dy exps) rows.
 
 (* case = (column exponents, integer rows with columns ordered X,Y,Z, k_x, k_y, k_z,
-           evaluate the residual form too?  (Gram-Schmidt on N-vectors of big rationals is slow under vm_compute;
-           the harness switches it off on the largest samples and counts them),
+           evaluate the residual form too?  the sequential residual form too?  (Gram-Schmidt on N-vectors of big
+           rationals is slow under vm_compute; the harness switches them off on the larger samples and counts them),
            the ratio computed by the harness's exact reference (num, den),
            values returned by the implementation's entry points as (num, den, tol num, tol den)) *)
-Definition check_case (c : list Z * list (list Z) * nat * nat * nat * bool * (Z * Z) * list (Z * Z * Z * Z)) : bool :=
-  let '(exps, rows, kx, ky, kz, with_res, qh, vals) := c in
+Definition check_case (c : list Z * list (list Z) * nat * nat * nat * bool * bool * (Z * Z) * list (Z * Z * Z * Z)) : bool :=
+  let '(exps, rows, kx, ky, kz, with_res, with_seq, qh, vals) := c in
   let D := sample exps rows in
   let ix := seq 0 kx in let iy := seq kx ky in let iz := seq (kx + ky) kz in
   let dxz := det_idx D (ix ++ iz) in let dyz := det_idx D (iy ++ iz) in
@@ -156,6 +172,7 @@ Definition check_case (c : list Z * list (list Z) * nat * nat * nat * bool * (Z 
   | Some qd, Some qc, Some a, Some b, Some c', Some d =>
       Qeq_bool qd qc && Qeq_bool qd (Qmake (fst qh) (Z.to_pos (snd qh))) &&
       (if with_res then match ratio_res D ix iy iz with Some qr => Qeq_bool qd qr | None => false end else true) &&
+      (if with_seq then match ratio_seq D ix iy iz with Some qs => Qeq_bool qd qs | None => false end else true) &&
       forallb (fun v => let '(vn, vd, tn, td) := v in
                         close_check (cmi_expr qd) (EQ vn vd) (EQ tn td) &&
                         close_check (cmi_code_expr a b c' d) (EQ vn vd) (EQ tn td)) vals
